@@ -1,4 +1,5 @@
 import Efp.Proofs.Val
+import Efp.Proofs.Prefix
 import Mathlib.Algebra.Order.Field.Basic
 import Mathlib.Tactic.Positivity
 /-!
@@ -140,11 +141,9 @@ theorem storage_fixed_honoured_or_raises (r : Series) (f : Rat) :
 
 /-! ## the cumulative need is the initial need plus the running sum of the delta -/
 
-/-- running sum of the values at hours up to `t` -/
-def prefixSum (a : Series) (t : Int) : Rat := ((a.filter (fun p => decide (p.1 ≤ t))).map Prod.snd).sum
-
-theorem prefixSum_of_lt (a : Series) (t : Int) (h : ∀ k ∈ Series.keys a, t < k) : prefixSum a t = 0 := by
-  unfold prefixSum
+open Efp.Series in
+theorem prefixSum_of_lt (a : Series) (t : Int) (h : ∀ k ∈ Series.keys a, t < k) : Series.prefixSum a t = 0 := by
+  unfold Series.prefixSum
   have : a.filter (fun p => decide (p.1 ≤ t)) = [] := by
     rw [List.filter_eq_nil_iff]
     intro p hp
@@ -153,7 +152,7 @@ theorem prefixSum_of_lt (a : Series) (t : Int) (h : ∀ k ∈ Series.keys a, t <
   rw [this]; simp
 
 theorem cumsumAux_get (a : Series) (ha : Series.Sorted a) (acc : Rat) (t : Int) (ht : t ∈ Series.keys a) :
-    Series.get (Series.cumsumAux acc a) t = acc + prefixSum a t := by
+    Series.get (Series.cumsumAux acc a) t = acc + Series.prefixSum a t := by
   induction a generalizing acc with
   | nil => simp at ht
   | cons p rest ih =>
@@ -164,8 +163,8 @@ theorem cumsumAux_get (a : Series) (ha : Series.Sorted a) (acc : Rat) (t : Int) 
     by_cases hk : k = t
     · subst hk
       simp only [if_true]
-      have h0 : prefixSum rest k = 0 := prefixSum_of_lt rest k (fun k' hk' => hs.1 k' hk')
-      unfold prefixSum at h0 ⊢
+      have h0 : Series.prefixSum rest k = 0 := prefixSum_of_lt rest k (fun k' hk' => hs.1 k' hk')
+      unfold Series.prefixSum at h0 ⊢
       simp only [List.filter_cons, le_refl, decide_true, if_true, List.map_cons, List.sum_cons, h0]; ring
     · simp only [hk, if_false]
       have ht' : t ∈ Series.keys rest := by
@@ -175,14 +174,14 @@ theorem cumsumAux_get (a : Series) (ha : Series.Sorted a) (acc : Rat) (t : Int) 
         · exact h
       rw [ih hrest (acc + v) ht']
       have hlt : k < t := hs.1 t ht'
-      unfold prefixSum
+      unfold Series.prefixSum
       simp only [List.filter_cons, decide_eq_true_eq, le_of_lt hlt, if_true, List.map_cons, List.sum_cons]; ring
 
 /-- **cumulative storage need = initial need + running sum of the storage delta**, at every hour
 of the delta's index -/
 theorem storage_cumulative_formula (delta : Series) (hd : Series.Sorted delta) (base : Rat) (t : Int)
     (ht : t ∈ Series.keys delta) :
-    Series.get (Series.cumsum (Series.bumpFirst base delta)) t = base + prefixSum delta t := by
+    Series.get (Series.cumsum (Series.bumpFirst base delta)) t = base + Series.prefixSum delta t := by
   cases delta with
   | nil => simp at ht
   | cons p rest =>
@@ -198,8 +197,41 @@ theorem storage_cumulative_formula (delta : Series) (hd : Series.Sorted delta) (
       rcases ht with h | h
       · omega
       · exact le_of_lt (hs.1 t h)
-    unfold prefixSum
+    unfold Series.prefixSum
     simp only [List.filter_cons, decide_eq_true_eq, hk, if_true, List.map_cons, List.sum_cons]; ring
+
+/-! ## a model in which no job deletes data is never rejected for negative storage (over ℚ) -/
+
+/-- the storage delta of a deletion-free model: what is written, minus the same volume `d` hours
+later (automatic dumps after the storage duration), the dumps being cut at the last written hour -/
+def deletionFreeDelta (needed : Series) (d : Int) (last : Int) : Series :=
+  Series.add needed (Series.truncateTo last (Series.neg (Series.shift d needed)))
+
+/-- **every running sum of a deletion-free storage delta is non-negative** -/
+theorem running_sum_nonneg_without_deletion (needed : Series) (hs : Series.Sorted needed)
+    (hpos : ∀ p ∈ needed, 0 ≤ p.2) (d : Int) (hd : 0 ≤ d) (last : Int) (t : Int) :
+    0 ≤ Series.prefixSum (deletionFreeDelta needed d last) t := by
+  unfold deletionFreeDelta
+  have hsd : Series.Sorted (Series.truncateTo last (Series.neg (Series.shift d needed))) :=
+    Series.sorted_truncateTo _ _ (Series.sorted_neg _ (Series.sorted_shift d needed hs))
+  rw [Series.prefixSum_add _ _ hs hsd, Series.prefixSum_truncateTo, Series.prefixSum_neg, Series.prefixSum_shift]
+  have hle : min t last - 3600 * d ≤ t := by
+    have : min t last ≤ t := min_le_left t last
+    nlinarith
+  have := (Series.prefixSum_mono needed hpos (min t last - 3600 * d) t hle).2
+  linarith
+
+/-- **cumulative storage need ≥ 0 at every hour**, hence the sign test of
+`update_full_cumulative_storage_need` never rejects a model without deleting jobs — in exact
+arithmetic; in floating point the running sum can come out as −1e-25 (finding D4) -/
+theorem cumulative_nonneg_without_deletion (needed : Series) (hs : Series.Sorted needed)
+    (hpos : ∀ p ∈ needed, 0 ≤ p.2) (d : Int) (hd : 0 ≤ d) (last : Int) (base : Rat) (hb : 0 ≤ base) (t : Int)
+    (ht : t ∈ Series.keys (deletionFreeDelta needed d last)) :
+    0 ≤ Series.get (Series.cumsum (Series.bumpFirst base (deletionFreeDelta needed d last))) t := by
+  have hsorted : Series.Sorted (deletionFreeDelta needed d last) := Series.sorted_add _ _ hs
+  rw [storage_cumulative_formula _ hsorted base t ht]
+  have := running_sum_nonneg_without_deletion needed hs hpos d hd last t
+  linarith
 
 /-! ## active instances never exceed provisioned ones -/
 
